@@ -105,6 +105,7 @@ def C02(prog: Program, run: Run, tier: str) -> None:
     run.add(axis.rule_axis(prog, mods if tier == "quick" else mods | {"overlap", "roi", "gridspec", "_xr_interop", "warp", "ui"}), AXIS_DESC)
     run.add(specific.rule_corners(prog), "R-CORNERS footprint polygon and bounding box push the same four pixel corners through the transform; box = min/max over them")
     run.add(extra.gcp_frames(prog), "R-FRAME GCPGeoBox applies the view affine in the right direction at every conversion between the control-point frame and the view frame (wld2pix, pix2wld, to_crs, gcps, approx)")
+    run.add(extra.negative_index(prog, {"geobox", "gcp", "roi"}), "R-NEGIDX an integer index becomes slice(i, i+1) only after negative values were adjusted or rejected")
     run.add(specific.rule_immut(prog), "R-IMMUT _shape/_affine/_crs assigned only in GeoBoxBase.__init__, _extent only in extent")
     run.add(_only(crsguard.rule_retag(prog, {"geobox", "gcp"}), "geobox:", "gcp:"), "R-RETAG every view returns the receiver's CRS")
     run.add(_only(rounding.rule_round(prog, {"geobox", "gcp", "geom"}), "geobox:GeoBoxBase.compute", "geobox:GeoBox.", "geobox:scaled_down", "geobox:_round", "gcp:", "geom:BoundingBox.round"), ROUND_DESC)
@@ -263,6 +264,7 @@ def C17(prog: Program, run: Run, tier: str) -> None:
     run.add(_only(rounding.rule_clamps(prog), "roi:roi_pad", "roi:scaled_up"), None)
     run.add(_only(axis.rule_axis(prog, {"roi"}), "roi:roi_", "roi:polygon_path", "roi:scaled", "roi:WindowFromSlice"), AXIS_DESC)
     run.add(_only(_fwd(prog, {"roi"}), "roi:roi_", "roi:scaled", "roi:slice", "roi:_norm", "roi:_fill"), FWD_DESC)
+    run.add(extra.negative_index(prog, {"roi"}), "R-NEGIDX integer index -> slice(i, i+1) only after negative values were adjusted or rejected")
     run.add(extra.intersect_siblings(prog), "R-SIBLING slice_intersect3 and roi_intersect agree on start/stop roles (max/min) and on the disjoint tests")
     run.floor("R-ROUND|", 7)
 
